@@ -113,6 +113,9 @@ def impl(c):
     if a[0] == 'attrs':
         _, ver, v, p = a
         n = _net(ver, v, p)
+        # a first reading whose objects the caller then moves in place: they are the caller's objects, the
+        # network (and every other network) must not notice
+        common.disturb(n.hostmask, n.netmask, n.network, n.ip, n.cidr, n.broadcast)
         b = n.broadcast
         out = ' '.join([str(int(n.hostmask)), str(int(n.netmask)), str(int(n.network)), str(n.first), str(n.last),
                         str(n.size), optint(None if b is None else int(b)), str(int(n.ip)), _show(n.cidr)])
@@ -148,6 +151,7 @@ def impl(c):
                     n.prefixlen = arg
                 else:
                     n.netmask = arg
+                common.disturb(arg)
                 out.append(_show(n))
             except Exception as e:
                 en = errname(e)
